@@ -141,45 +141,52 @@ def unsignedArg (len : Len) (args : List Arg) : Option (Nat × List Arg) :=
   | .l, .long v :: as | .ll, .long v :: as | .j, .long v :: as | .z, .long v :: as | .t, .long v :: as => some (v.toNat, as)
   | _, _ => none
 
-/-- one conversion specification applied to the argument list.
+/-- "a field width, or precision, or both, may be indicated by an asterisk. In
+this case, an int argument supplies the field width or precision. … A negative
+field width argument is taken as a - flag followed by a positive field width."
+Result: effective `-` flag, field width, remaining arguments. -/
+def resolveWidth (d : Directive) (args : List Arg) : Option (Bool × Nat × List Arg) :=
+  match d.width, args with
+  | .none, as => some (d.minus, 0, as)
+  | .lit n, as => some (d.minus, n, as)
+  | .star, .int v :: as => some (d.minus || decide (v.toInt < 0), v.toInt.natAbs, as)
+  | .star, _ => none
+
+/-- "A negative precision argument is taken as if the precision were omitted." -/
+def resolvePrec (d : Directive) (args : List Arg) : Option (Option Nat × List Arg) :=
+  match d.prec, args with
+  | .none, as => some (none, as)
+  | .lit n, as => some (some n, as)
+  | .star, .int v :: as => some (if v.toInt < 0 then none else some v.toInt.toNat, as)
+  | .star, _ => none
+
+/-- the conversion itself, once width and precision are known.
 
 `strict = true` additionally refuses the two input classes on which igris is
 known to deviate (recorded findings C06-alt-zero, C06-c-nul); it is used only to
 state the `_partial` theorem — `isoFormat` itself is `strict = false`. -/
-def isoConv (pfmt : Nat → List Char) (strict : Bool) (d : Directive) (args : List Arg) : Option (List Char × List Arg) := do
-  -- "a field width, or precision, or both, may be indicated by an asterisk. In
-  --  this case, an int argument supplies the field width or precision. … A
-  --  negative field width argument is taken as a - flag followed by a positive
-  --  field width. A negative precision argument is taken as if the precision
-  --  were omitted."
-  let (minus, width, args) ←
-    match d.width, args with
-    | .none, as => some (d.minus, 0, as)
-    | .lit n, as => some (d.minus, n, as)
-    | .star, .int v :: as => some (d.minus || decide (v.toInt < 0), v.toInt.natAbs, as)
-    | .star, _ => none
-  let (prec, args) ←
-    match d.prec, args with
-    | .none, as => some (Option.none, as)
-    | .lit n, as => some (some n, as)
-    | .star, .int v :: as => some (if v.toInt < 0 then Option.none else some v.toInt.toNat, as)
-    | .star, _ => none
+def isoBody (pfmt : Nat → List Char) (strict : Bool) (d : Directive) (minus : Bool) (width : Nat)
+    (prec : Option Nat) (args : List Arg) : Option (List Char × List Arg) :=
   let c := d.conv
   if c = '%' then
     -- "The complete conversion specification shall be %%."
     if d.minus || d.plus || d.space || d.hash || d.zero || d.width ≠ .none || d.prec ≠ .none || d.len ≠ .none then none
     else some (['%'], args)
   else if c = 'd' || c = 'i' then
-    if d.hash then none else do
-    let (v, args) ← signedArg d.len args
-    some (isoInt minus d.plus d.space false d.zero width prec true (decide (v < 0)) v.natAbs 10 false, args)
+    if d.hash then none else
+    match signedArg d.len args with
+    | none => none
+    | some (v, args) =>
+      some (isoInt minus d.plus d.space false d.zero width prec true (decide (v < 0)) v.natAbs 10 false, args)
   else if c = 'u' || c = 'o' || c = 'x' || c = 'X' then
-    if d.hash && c = 'u' then none else do
-    let (v, args) ← unsignedArg d.len args
-    -- C06-alt-zero: `#` with a zero value (x, X; o when the effective precision is 1)
-    if strict && d.hash && v = 0 && (c ≠ 'o' || prec.getD 1 = 1) then none else
-    some (isoInt minus d.plus d.space d.hash d.zero width prec false false v
-            (if c = 'u' then 10 else if c = 'o' then 8 else 16) (c = 'X'), args)
+    if d.hash && c = 'u' then none else
+    match unsignedArg d.len args with
+    | none => none
+    | some (v, args) =>
+      -- C06-alt-zero: `#` with a zero value (x, X; o when the effective precision is 1)
+      if strict && d.hash && v = 0 && (c ≠ 'o' || prec.getD 1 = 1) then none else
+      some (isoInt minus d.plus d.space d.hash d.zero width prec false false v
+              (if c = 'u' then 10 else if c = 'o' then 8 else 16) (c = 'X'), args)
   else if c = 'c' then
     -- "the int argument is converted to an unsigned char, and the resulting character is written"
     if d.hash || d.zero || prec.isSome || d.len ≠ .none then none else
@@ -200,6 +207,15 @@ def isoConv (pfmt : Nat → List Char) (strict : Bool) (d : Directive) (args : L
     | .ptr v :: as => some (pad minus width (pfmt v.toNat), as)
     | _ => none
   else none
+
+/-- one conversion specification applied to the argument list -/
+def isoConv (pfmt : Nat → List Char) (strict : Bool) (d : Directive) (args : List Arg) : Option (List Char × List Arg) :=
+  match resolveWidth d args with
+  | none => none
+  | some (minus, width, args) =>
+    match resolvePrec d args with
+    | none => none
+    | some (prec, args) => isoBody pfmt strict d minus width prec args
 
 /-- the format is copied unchanged except for conversion specifications
 (§7.21.6.1p3); `fuel` ≥ length of the format -/
@@ -233,5 +249,15 @@ def igrisPtr (p : Nat) : List Char :=
 /-- glibc's rendering of a pointer (used only by the driver for the `iso` stream) -/
 def glibcPtr (p : Nat) : List Char :=
   if p = 0 then "(nil)".toList else '0' :: 'x' :: Nat.toDigits 16 p
+
+/-- value of a lower-case hexadecimal digit -/
+def hexDigitVal (c : Char) : Option Nat :=
+  if c.isDigit then some (c.toNat - 48)
+  else if 97 ≤ c.toNat ∧ c.toNat ≤ 102 then some (c.toNat - 87)
+  else none
+
+/-- reads a string of hexadecimal digits (what `strtoull(s, 0, 16)` does after the `0x`) -/
+def parseHex (cs : List Char) : Option Nat :=
+  cs.foldl (fun acc c => acc.bind fun a => (hexDigitVal c).map (a * 16 + ·)) (some 0)
 
 end Igris.C06.Iso
